@@ -111,6 +111,9 @@ func VerifC03_Raw() {
 	um := vInt("um", 0, 2)
 	ro := vBool("ro")
 	n := 2
+	if vThorough() && mode == 0 && !ro {
+		n = 3 // three raw tokens in Normal mode (all unknown modes)
+	}
 	vBound("runes", 2) // bundles of at most two letters; wider ones are C07's subject
 	var args []string
 	for j := 0; j < n; j++ {
